@@ -272,17 +272,49 @@ func rulePairSeq(p *Prog, r *Report) {
 	cz := p.canonFor(fn)
 	ord := newOrdinals()
 	nSeq, nAttr := 0, 0
+	// the stores under the sequence key: made directly, or inside a helper that builds the map (the number is then the helper's
+	// argument at the call, and the call is where the number is handed out)
+	type seqStore struct {
+		at ssa.Instruction // instruction of fn
+		S  ssa.Value       // the int stored, a value of fn (nil: not an int of fn)
+	}
+	var stores []seqStore
+	root := &mmFrame{fn: fn}
 	for _, in := range instrsByPos(fn) {
-		mu, ok := in.(*ssa.MapUpdate)
-		if !ok || cz.of(mu.Key) != "load(mxj.seqK)" {
+		if mu, ok := in.(*ssa.MapUpdate); ok && cz.of(mu.Key) == "load(mxj.seqK)" {
+			var S ssa.Value
+			if mi, ok := mu.Value.(*ssa.MakeInterface); ok && isIntType(mi.X.Type()) {
+				S = mi.X
+			}
+			stores = append(stores, seqStore{in, S})
 			continue
 		}
-		mi, ok := mu.Value.(*ssa.MakeInterface)
-		if !ok || !isIntType(mi.X.Type()) {
+		if c, ok := in.(*ssa.Call); ok {
+			if h := staticCallee(&c.Call); h != nil && p.InModule(h) && !p.Exported(h) && h != fn {
+				if info, ok := p.madeMapOf(c, root, 0); ok {
+					for _, e := range info.entries {
+						if e.key != "load(mxj.seqK)" || e.frame.fn == fn {
+							continue
+						}
+						var S ssa.Value
+						if mi, ok := e.val.(*ssa.MakeInterface); ok && isIntType(mi.X.Type()) {
+							if sv, sfr := e.frame.resolveUp(mi.X); sfr != nil && sfr.fn == fn {
+								S = sv
+							}
+						}
+						stores = append(stores, seqStore{in, S})
+					}
+				}
+			}
+		}
+	}
+	for _, ss := range stores {
+		mu := ss.at
+		if ss.S == nil {
 			r.Bad(rule, n, ord.key(n, "sequence number store"), p.Pos(mu.Pos()), "the value stored under the sequence key is not an int")
 			continue
 		}
-		if isRangeIndex(mi.X) {
+		if isRangeIndex(ss.S) {
 			nAttr++
 			r.OK(rule, n, ord.key(n, "attribute sequence number"), p.Pos(mu.Pos()), "attributes are numbered by their index in the start tag")
 			continue
@@ -290,7 +322,7 @@ func rulePairSeq(p *Prog, r *Report) {
 		nSeq++
 		construct := ord.key(n, "sequence number store")
 		// the stored counter value S; S+1 must be computed in this block and flow back to the loop header
-		S := mi.X
+		S := ss.S
 		okInc := false
 		for _, i2 := range mu.Block().Instrs {
 			if bo, ok := i2.(*ssa.BinOp); ok && bo.Op == token.ADD && bo.X == S {
